@@ -64,6 +64,9 @@ def run(m, chk):
     r.commit_last("COMMIT-LAST", C + "degree_increase")
     r.commit_last("COMMIT-LAST", "curves.BaseCurve.apply")
     no_inplace_elem(r, chk, ["curves.BaseCurve.apply"])
+    from .extra import precheck_weights
+
+    precheck_weights(r, chk, ["curves.BaseCurve.apply", C + "degree_increase"])
     rule_d(r, chk, [C + "degree_increase"], floor=6)
     committed_deps(r, chk, C + "degree_increase", CURVE_FIELDS[1], ["times", "self.knotvector", "self.ctrlpoints", "self.weights"])
     committed_deps(r, chk, C + "degree_increase", CURVE_FIELDS[0], ["times", "self.knotvector"])
